@@ -133,6 +133,7 @@ func checkCmd(argv []string) int {
 	}
 	sort.Strings(keys)
 	var frs []*FuncResult
+	specBroken := map[string]string{}
 	var undecided []string
 	var funcs []string
 	for _, k := range keys {
@@ -157,6 +158,15 @@ func checkCmd(argv []string) int {
 		fr := P.VerifyFunc(ct, fn)
 		if fr.Err != "" {
 			undecided = append(undecided, fmt.Sprintf("not-verifiable %s.%s: %s", shortPkg(ct.Pkg), ct.Target, fr.Err))
+			if strings.HasPrefix(fr.Err, "contract error: spec") {
+				// the function exists but a clause of its contract names something the code no longer has (a removed package
+				// variable, field, parameter): its claimed clauses cannot be decided on this tree any more
+				pfx := shortPkg(ct.Pkg) + "." + ct.Target
+				if ct.View != "" {
+					pfx += "@" + ct.View
+				}
+				specBroken[pfx] = fr.Err
+			}
 			continue
 		}
 		for _, d := range fr.VC.droppedInvs {
@@ -393,6 +403,24 @@ func checkCmd(argv []string) int {
 		fmt.Printf("UNDECIDED property=%s %s\n", *prop, u)
 	}
 	for _, m := range missing {
+		broken := ""
+		for pfx, why := range specBroken {
+			if strings.Contains(m, "/"+pfx+"/") {
+				broken = why
+			}
+		}
+		if broken != "" {
+			// a claimed clause whose contract no longer evaluates against the code: reported as a violation without an input
+			// (the price, as for dropped invariants: renaming what a contract names also alarms until the contract follows)
+			violations++
+			exit = 1
+			os.MkdirAll(replayDir, 0o755)
+			path := filepath.Join(replayDir, sanitize(m)+".json")
+			writeJSON(path, map[string]interface{}{"obligation": m, "property": *prop, "verdict": "contract no longer matches the code", "solver_output": broken,
+				"explanation": "this obligation was proved on the unchanged tree; on this tree the function's contract cannot be evaluated against its code any more, so the clause is no longer established"})
+			fmt.Printf("VIOLATION property=%s replay=%s no-failing-input-found\n  failed obligation (contract no longer matches the code: %s): %s\n", *prop, path, firstLine(broken), m)
+			continue
+		}
 		fmt.Printf("UNDECIDED property=%s claimed obligation no longer generated: %s\n", *prop, m)
 	}
 	wall := time.Since(t0).Seconds()
